@@ -155,7 +155,7 @@ CLAIMS = {
    text="Model Server/Tenant.lean (API key -> tenant, global id = index<<32|local id, server-owned keys, tenant/namespace checks, "
         "post-filtered search). Theorems: C10_reserved_never_shown, C10_reserved_not_settable, C10_namespace_not_settable, "
         "C10_point_read_is_own, C10_namespace_selector, C10_write_frame_insert/_delete/_update/_batchDeleteIds/_batchDeleteFilter/"
-        "_bulkInsert (a write of tenant B leaves every read of tenant A unchanged, colliding local ids included), "
+        "_bulkInsert/_bulkLoad (a write of tenant B leaves every read of tenant A unchanged, colliding local ids included), "
         "C10_filter_blind_to_reserved + C10_reserved_filter_refused_* (client filters cannot see the server-owned keys; fix 7ce87e7), C10_search_sound (every result is the caller's: id range, stored "
         "index, namespace, public metadata), C10_search_isolated_partial (isolation when the candidate window covers the collection) "
         "and C10_search_count_leak (the full statement is FALSE: A's result count depends on B's data). Tie: ~45 (quick) random "
@@ -163,8 +163,7 @@ CLAIMS = {
         "compared with the model - and each history replayed per tenant with the other tenants' requests removed.",
    note="Partial, two known findings (KF-C10-shared-index-post-filter, KF-C10-flush-count). Not modelled: TLS, rate limiting, "
         "Health/Metrics (excluded by the property), timing side channels. Search order computed in the driver (Float, exact on the "
-        "generated dyadic coordinates), ties reported. BulkLoadHnsw frame theorem not stated (covered by the correspondence "
-        "and the replay oracle).",
+        "generated dyadic coordinates), ties reported.",
    design="§3 C10"),
  "C14": dict(
    engine="rpc+conc",
